@@ -7,7 +7,7 @@ T = 'photutils/utils/_parameters.py::as_pair'
 
 def register(reg):
     reg.add(Contract(
-        target=T, props=['C11'], tag='pair-with-upper-bound',
+        target=T, props=['C11', 'C17'], tag='pair-with-upper-bound',
         replay={'call': 'photutils.utils._parameters:as_pair',
                 'args': ['name', 'value', 'lower_bound', 'upper_bound'],
                 'const': {'name': 'box_size', 'lower_bound': None}},
@@ -21,7 +21,7 @@ def register(reg):
                  ('min(value[0], upper_bound[0])', 'max(value[0], upper_bound[0])')],
     ))
     reg.add(Contract(
-        target=T, props=['C11'], tag='pair-with-bounds',
+        target=T, props=['C11', 'C17'], tag='pair-with-bounds',
         params={'name': 'str', 'value': ('arr', 1, 'int'), 'lower_bound': ('tuple', 'int', 'int'),
                 'upper_bound': ('tuple', 'pos', 'pos'), 'check_odd': ('const', False)},
         requires=['value.shape[0] == 2', 'lower_bound[1] == 0 or lower_bound[1] == 1'],
@@ -33,3 +33,18 @@ def register(reg):
                   'result[1] == min(value[1], upper_bound[1])')],
         mutants=[('mask = value <= bound', 'mask = value < bound')],
     ))
+    # a scalar is the same size along both axes, then clipped per axis like a pair
+    reg.add(Contract(
+        target=T, props=['C11', 'C17'], tag='scalar-with-upper-bound',
+        params={'name': 'str', 'value': ('arr', 1, 'int'), 'lower_bound': ('tuple', 'int', 'int'),
+                'upper_bound': ('tuple', 'pos', 'pos'), 'check_odd': ('const', False)},
+        requires=['value.shape[0] == 1', 'lower_bound[1] == 0 or lower_bound[1] == 1'],
+        raises=[('ValueError', 'ite(lower_bound[1] == 1, value[0] <= lower_bound[0], '
+                               'value[0] < lower_bound[0])')],
+        ensures=[('both-axes-the-scalar-clipped-per-axis',
+                  'result.shape == (2,) and result[0] == min(value[0], upper_bound[0]) and '
+                  'result[1] == min(value[0], upper_bound[1])')],
+        mutants=[('value = np.array((value[0], value[0]))', 'value = np.array((value[0], 1))'),
+                 ('min(value[1], upper_bound[1])', 'min(value[1], upper_bound[0])')],
+    ))
+
